@@ -4,45 +4,61 @@ correspondence K-C16 (table dumps, decomposition-class op sequences, trainer-lev
 configuration sweeps)."""
 import os, re
 from vlib import core
+from checks import c16_mclin
 
 TRUST = ("Lean 4.33 kernel; axioms at most propext/Classical.choice/Quot.sound (audited per run by #audit_module); ")
 MANIFEST = dict(
   text=("Theorems (Props/C16.lean, exact arithmetic, all sizes): (1) on the nu/M tables regenerated from CSvmTrainer::setupMcParameters{WWCS,ATMATS,ADMLLW,MMR} "
         "on every run (T2, translate/mcsvm_tables.py): M_is_gram_of_nu for ALL class counts c>=2 and every family (M = <nu,nu'>, minus the mean for the "
         "sum-to-zero families; WW/CS nu sum to zero), rows well-formed, loops write exactly `height` rows and never exceed the reserved capacity; "
-        "(2) on the hand-written model of QpMcBoxDecomp (Model/McSmo.lean): mc_tables_inv (example/variable tables mutually inverse, active split consistent), "
-        "mc_box_inv (0<=alpha<=C), mc_grad_inv (gradient of active variables = lin - (M(x)K) alpha) hold initially and are preserved by EVERY operation "
+        "(2) QpMcBoxDecomp (Model/McSmo.lean): mc_tables_inv, mc_box_inv (0<=alpha<=C), mc_grad_inv (gradient of active variables = lin - (M(x)K) alpha) hold initially and are preserved by EVERY operation "
         "(updateSMO incl. the 1-D/2-D box sub-solvers, gradientUpdate, deactivateVariable, deactivateExample, shrink, unshrink, addDeltaLinear), hence after every valid "
-        "finite history (induction over op lists), instantiated for the generated tables of every family and c>=2 (their symmetry is derived from M_is_gram_of_nu); "
-        "after unshrink the whole gradient is exact; (3) decision logic generated from CSvmTrainer::train / LinearCSvmTrainer::train: two_class_dispatch "
-        "(every formulation takes the binary path on two-class data), ova_is_binary_per_class (OVA never reaches the multi-class solvers), every other formulation uses one of the four table families; "
-        "(4) QpBoxLinear coordinate step (Model/McLinear.lean): linear_w_inv (w = sum alpha_i y_i x_i) and linear_box_inv along EVERY schedule, linear_step_gain_nonneg_partial; "
-        "(5) configuration invariance in exact arithmetic: mc_kkt_eps_near_optimal / two_stopped_configurations_close (any two feasible eps-KKT points of a concave box QP have "
-        "objectives within eps*N*C), stopped_state_near_optimal (link to the model through mc_grad_inv), mc_objective_recomputed (functionValue() is the dual objective), generated_Q_psd (Q = M(x)K is PSD for every family when K is a Gram matrix of explicit "
-        "features: Kronecker step via M_is_gram_of_nu), perm_examples_equivariant (reordering the examples renumbers the same dual). Tie to the C++ on every run: entry-wise table dumps c=2..8 (bit patterns and exact "
-        "rationals); adversarial op sequences on the real QpMcBoxDecomp (protected members via a subclass, synthetic PSD integer/dyadic kernel matrices) compared line by line with the "
-        "Float instance of the model bit for bit and, whenever FE_INEXACT stayed clear, with the Rat instance exactly; one-epoch sweeps of the real QpBoxLinear along its observed "
-        "random schedule against the model; trainer level (oracle only): all 9 formulations x offset x shrinking x cache sizes x example permutations x batch sizes x 3 kernels on integer "
-        "data with 2-5 classes, decision values compared across configurations within the bound derived from the solver accuracy, plus box/simplex constraints, independently recomputed "
-        "gradient/KKT/objective, alpha->decision-function map, two-class = binary trainer bit for bit, OVA = per-class binary bit for bit, linear kernel vs dedicated linear solver; ASan/UBSan."),
-  note=TRUST + "PARTIAL. Proved only for the model: the decomposition model covers QpMcBoxDecomp (box formulations WW, LLW, ATS, reinforced); QpMcSimplexDecomp (CS, ATM, ADM, MMR: "
-       "mc_simplex_inv), BiasSolver/BiasSolverSimplex, QpSolver::solve's loop and the multi-class linear solvers QpMcLinear* are NOT modelled — they are "
-       "covered by the trainer-level oracles only; QpMcBoxDecomp::selectWorkingSet (first and second order, including the call of maximumGainQuadratic2D with shifted arguments and the "
-       "single-cursor walk over the sparse row) is modelled and tied bit for bit but no theorem is stated about it (simplex constraint is checked there up to 1e-12 relative slack: the code itself exceeds C by an ulp). linear_step_gain_nonneg is partial "
-       "(hypothesis |x_i|^2+reg>0; the zero-vector case differs between IEEE inf and Rat division). Configuration invariance is a theorem about exact arithmetic; PSD of Q is proved for kernel matrices given as Gram matrices of explicit features "
-       "(linear/polynomial kernels), a hypothesis otherwise; that the real solver reaches the accuracy, and all floating-point effects, are exercised by the correspondence only; "
-       "the decision-value tolerance 2*sqrt(2*eps*n*P*C)*sqrt(k(x,x)) is derived on paper from the proved objective bound. uniform_sweep_visits_all, linear_stop_weak and primal_dual_gap of the design are not proved; perm_examples_equivariant is proved at the level of Q and lin "
-       "(not composed with the optimality bound into one statement). For the binary machine (and each one-versus-all machine) with offset a constant shift of the decision values between configurations is tolerated "
-       "(the optimal offset is an interval when no support vector is free; C07 owns bias_in_kkt_interval). The translator is trusted to render the C++ subset faithfully (mitigated by the dumps and by comparing the generated decision logic with the path "
-       "the real trainer takes). Findings: F-C16-1 (label(i) after shrinking; patch proposed), F-C16-4 (QpMcSimplexDecomp::selectWorkingSet stalls; patch proposed), "
-       "F-C16-2 (multi-class offset solver is trajectory dependent; no validated patch) — see findings_proposed/C16.md; on a tree without the patches the check reports them as violations by design.",
-  technique="Lean 4 invariant proofs by induction over operation histories on a hand-written solver model + source-regenerated tables and decision logic (T2) + differential correspondence with the C++ "
+        "finite history, instantiated for the generated tables of every family and c>=2; "
+        "(3) WHOLE RUNS of QpSolver::solve (Model/McSolve.lean: selectWorkingSet first+second order -> updateSMO -> periodic shrink with the unshrink-at-10*eps rule -> stopping rule with "
+        "unshrink + re-check, iteration limit, wrapping shrink counter): solve_run_invariants (every reachable state satisfies all invariants, any accuracy / iteration limit / start state, shrinking on or off), "
+        "solve_never_stuck_box (updateSMO is only ever called with active variables), solve_stop_is_kkt (QpAccuracyReached => all variables active and the stored = true gradient is eps-KKT), "
+        "solve_generated_near_optimal (stop => KKT(eps) => objective within eps*P*n*C of every feasible point of THE dual in its original numbering: the operations of the loop only renumber Q and lin, Renumbered; "
+        "PSD of Q = M(x)K from M_is_gram_of_nu + Kronecker lemma for Gram kernel matrices), solve_generated_configuration_invariant (two runs, shrinking on/off, any limits, both stopped: dual objectives within eps*P*n*C), "
+        "decision_map_quadratic (delta^T Q delta = squared norm of the centred decision coefficients Sum_p nu~(y_i,p,k) delta(i,p) the trainer writes) and stopped_configurations_close_decision "
+        "(two eps-KKT points: that squared norm <= 2*eps*P*n*C, i.e. |Delta f(x)| <= sqrt(2 eps P n C k(x,x)), half the tolerance of the trainer-level comparison); "
+        "(4) QpMcSimplexDecomp (CS, ATM, ADM, MMR; Model/McSimplex.lean: updateSMO in its three cases incl. solveQuadratic2DTriangle, updateVarsum with its re-computation/snapping rule, deactivateVariable with automatic "
+        "deactivateExample, shrink cases 1/2, unshrink, selectWorkingSet/maxGainBox/maxGainSimplex, checkKKT, solve loop): simplex_run_invariants = tables + gradient invariants + mc_simplex_inv "
+        "(alpha>=0, 0<=varsum<=C, Sum_p alpha_ip <= C + 1e-14: the constraint up to the slack of the code's own snapping, which the real code does use) for every state reached by QpSolver::solve and by every single operation "
+        "(simplex_ops_preserve; the off-by-one branch of shrink is proved unreachable), simplex_stop_is_kkt, simplex_run_renumbers (the simplex loop too only renumbers Q and lin); "
+        "(5) bias loop as far as it is logic (Model/McBias.lean): bias_loop_consistent — after ANY sequence of inner solves and performBiasUpdate steps all invariants hold and the linear part, read through the renumbered tables, is "
+        "linear(i,p) - nu-row . (accumulated bias) (LinInv through every operation); bias_loop_consistent_simplex: the same for BiasSolverSimplex over runs of the simplex solve loop; "
+        "(6) decision logic generated from CSvmTrainer::train / LinearCSvmTrainer::train: two_class_dispatch, ova_is_binary_per_class, every other formulation uses one of the four table families; "
+        "(7) dedicated linear solvers: QpBoxLinear coordinate step (linear_w_inv, linear_box_inv along EVERY schedule, linear_step_gain_nonneg_partial) and QpMcLinear{WW,LLW,ATS,MMR,Reinforced} per-example step "
+        "(Model/McLinearMc.lean: calcGradient, solveSub with its inner SMO loop, updateWeightVectors): mc_linear_invariants = w is the formulation's linear map of alpha, 0<=alpha<=C, returned gain >= 0, along EVERY schedule; "
+        "(8) configuration invariance in exact arithmetic: mc_kkt_eps_near_optimal / two_stopped_configurations_close, stopped_state_near_optimal, mc_objective_recomputed, generated_Q_psd, perm_examples_equivariant. "
+        "Tie to the C++ on every run (both tiers): entry-wise table dumps c=2..8; adversarial op sequences INCLUDING whole solve runs on the real QpMcBoxDecomp AND the real QpMcSimplexDecomp (protected members via subclasses, "
+        "QpSolver<Probe>::solve, BiasSolver[Simplex]::performBiasUpdate via an access override; synthetic PSD integer/dyadic kernel matrices) compared line by line with the Float instance of the models bit for bit (complete state incl. varsum, "
+        "iterations, stop type, reported accuracy) and, whenever FE_INEXACT stayed clear, with the Rat instance exactly, with independent oracles (tables, box/simplex, recomputed gradient, varsum drift, stopping rule); per-example steps of all "
+        "eight real QpMcLinear classes along arbitrary schedules against the model bit for bit with oracles (w consistency, feasibility, gain = change of the dual objective); one-epoch sweeps of the real QpBoxLinear; trainer level (oracle only): "
+        "all 9 formulations x offset x shrinking x cache sizes x example permutations x batch sizes x 3 kernels on integer data with 2-5 classes, decision values compared across configurations within the derived bound, box/simplex constraints, "
+        "recomputed gradient/KKT/objective, alpha->decision-function map, two-class = binary trainer bit for bit, OVA = per-class binary bit for bit, linear kernel vs dedicated linear solver, and re-use of one model object "
+        "(k-class then two-class training and vice versa must equal a fresh model); ASan/UBSan."),
+  note=TRUST + "PARTIAL. Modelled by hand, not translated: McSmo/McSolve/McSimplex/McBias/McLinear/McLinearMc (tied bit for bit on every run). NOT proved: (a) the objective-gap bound for the SIMPLEX-constrained dual "
+       "(simplex_stop_is_kkt gives KKT(eps) in terms of the tracked varsum; the bound would carry an extra term 1e-14*|gradient| from the snapping), and NO never-stuck theorem for the simplex loop: it is false on the current code — "
+       "shrink case 2 deactivates a KKT-violating variable whose example's varsum was snapped to 0 (finding F-C16-4, root cause; the model reproduces the resulting livelock bit for bit); "
+       "(b) BiasSolver::solve's Rprop rule, its two data-dependent loops and their termination (bias_loop_consistent quantifies over every sequence of steps instead; the whole loop is exercised at trainer level only — F-C16-2, F-C16-4 live there); "
+       "(c) QpMcLinear{CS,ATM,ADM} theorems (model + bit-exact tie + oracles only; F-C16-L1 lives there), the ACF/shrinking epoch schedule and the epoch-level stopping rule of QpMcLinear::solve/QpBoxLinear::solve "
+       "(theorems quantify over every schedule; uniform_sweep_visits_all, linear_stop_weak, primal_dual_gap of the design are not proved; 'same primal objective as the kernel solver' is a trainer-level oracle); "
+       "(d) no theorem about WHICH working set is selected beyond validity (the second-order rule incl. the shifted arguments of maximumGainQuadratic2D is tied bit for bit) and none about convergence (that accuracy IS reached); "
+       "(e) the time limit of QpSolver::solve is not modelled. linear_step_gain_nonneg is partial (|x_i|^2+reg>0). The driver re-tabulates the state vectors between model operations and between passes of the solve loop "
+       "(identity on the valid index ranges; the loop it runs is the model's solveLoopWith/solveLoopXWith, proved equal to solveLoop/solveLoopX for the identity re-tabulation). Configuration invariance is a theorem about exact arithmetic over a kernel matrix given as a function (C09 owns the cache); PSD of Q is proved for Gram "
+       "matrices of explicit features, a hypothesis otherwise; floating-point effects are covered by the correspondence only. For the binary machine (and each one-versus-all machine) with offset a constant shift of the decision values "
+       "between configurations is tolerated (C07 owns bias_in_kkt_interval). Findings: F-C16-L1 (QpMcLinear{CS,ADM,ATM} two-variable step: gain formula / ATM gradient update; validated patch proposed), F-C16-4 (QpMcSimplexDecomp::shrink case 2 vs the varsum snapping: the solve loop "
+       "livelocks, with offset BiasSolverSimplex then stops at a non-KKT point; root cause found this round, validated patches F4c + F4b proposed), F-C16-2 (multi-class offset solver is trajectory dependent; no small patch) "
+       "— see findings_proposed/C16.md; listed in known_findings.json.",
+  technique="Lean 4 invariant proofs by induction over operation histories and over whole runs of the modelled solver loops (hand-written models) + source-regenerated tables and decision logic (T2) + differential correspondence with the C++ "
             "(exact / bit / toleranced modes, ASan/UBSan) + independent trainer-level property oracles",
-  design="§6 C16")
+  design="§6 C16, §14 C16")
 FINISH = dict(level="proof",
-              rule="cases = (a) one table dump per generated table and c=2..8, (b) op histories on QpMcBoxDecomp from one SplitMix64 stream (family, c=2..5, n=2..6, C, linear part, PSD kernel matrix, "
-                   "ops smo/deactvar/killex/deactex/shrink/unshrink/adddelta/label/select1), (c) QpBoxLinear sweep histories, (d) trainer runs = (data set, formulation, offset, configuration); "
-                   "distinct = distinct op text; a box/linear history is non-trivial if it has more than 3 ops")
+              rule="cases = (a) one table dump per generated table and c=2..8, (b) op histories on QpMcBoxDecomp and (c) on QpMcSimplexDecomp from SplitMix64 streams (family, c=2..5, n=2..6, C, linear part, PSD kernel matrix, "
+                   "ops smo/deactvar/killex/deactex/shrink/unshrink/adddelta/biasupd/label/select/kkt/solve(eps,maxIter), one case in three ends with a full solve run), (d) per-example step histories of the eight QpMcLinear classes, "
+                   "(e) QpBoxLinear sweep histories, (f) trainer runs = (data set, formulation, offset, configuration) and model re-use runs; "
+                   "distinct = distinct op text; a box/simplex history is non-trivial if it has more than 3 ops")
 LAKE_TARGETS = ["SharkVerif.Props.C16", "drv_c16"]
 SRC = ["src/Core/Random.cpp"]
 TABLES = ["WWCS_nu", "WWCS_M", "ATMATS_nu", "ATMATS_M", "ADMLLW_nu", "ADMLLW_M", "MMR_nu", "MMR_M"]
@@ -58,7 +74,7 @@ def hname(base):
 
 
 def build(ctx):
-    return ctx.harness(hname("c16"), ["c16.cpp", "c16s.cpp"], repo_sources=SRC)
+    return ctx.harness(hname("c16"), ["c16l.cpp", "c16.cpp", "c16s.cpp", "c16x.cpp"], repo_sources=SRC)
 
 
 def classify(ops, res):
@@ -104,10 +120,12 @@ def gen_box_case(r, maxlen, ctx=None):
     fam = r.choice(["WWCS", "WWCS", "ATMATS", "ATMATS", "ADMLLW", "MMR"])
     c = r.choice([2, 2, 3, 3, 4, 4, 5])
     P = FAMILY_P[fam](c)
-    n = r.range(max(2, 1), 6)
+    n = r.choice([1, 2, 2, 3, 3, 4, 4, 5, 6])         # a single example (one simplex / one box block) included
     labels = [r.below(c) for _ in range(n)]
+    if r.chance(1, 6): labels = [labels[0]] * n     # all examples of one class
     labels[r.below(n)] = c - 1                      # numberOfClasses(target) must be c
-    cnum, cshift = r.choice([(1, 0), (1, 0), (2, 0), (1, 1), (4, 0), (3, 0), (1, 2), (5, 1)])
+    # C: ordinary values, non-dyadic-friendly ones (3, 5/2) and extreme magnitudes (2^-10, 2^10)
+    cnum, cshift = r.choice([(1, 0), (1, 0), (2, 0), (1, 1), (4, 0), (3, 0), (1, 2), (5, 1), (1, 10), (1024, 0)])
     # linear part: all ones (what the trainer passes), reinforced-style, or small integers
     lk = r.below(10)
     lin = []
@@ -129,7 +147,9 @@ def gen_box_case(r, maxlen, ctx=None):
         K = [[sum(G[i][t] * G[j][t] for t in range(rk)) for j in range(n)] for i in range(n)]
         if r.chance(1, 2):
             for i in range(n): K[i][i] += 1        # strictly positive definite
-        kshift = r.below(3)
+        if r.chance(1, 10) and n >= 2:
+            G[1] = list(G[0]); K = [[sum(G[i][t] * G[j][t] for t in range(rk)) for j in range(n)] for i in range(n)]   # duplicate example
+        kshift = r.choice([0, 1, 2, 0, 1, 2, 9])    # 9: entries of order 2^-9 (the 1e-12 curvature thresholds come into play)
     shr = 0 if r.chance(1, 8) else 1
     ops = ["box %s %d %d %d %d %d %d %s" % (fam, c, n, cnum, cshift, shr, kshift,
            " ".join(map(str, labels + lin + [K[i][j] for i in range(n) for j in range(n)])))]
@@ -154,13 +174,51 @@ def gen_box_case(r, maxlen, ctx=None):
             ops.append("unshrink")
         elif x < 91:
             ops.append("adddelta " + " ".join(str(r.range(-1, 1)) for _ in range(nv)))
-        elif x < 96:
+        elif x < 93:
             ops.append(f"label {r.below(n)}")
-        else:
+        elif x < 95:
+            # BiasSolver::performBiasUpdate with an arbitrary bias step (one dyadic rational per class)
+            ops.append("biasupd " + " ".join(f"{r.range(-3, 3)} {r.choice([0, 1, 2, 7])}" for _ in range(c)))
+        elif x < 97:
             ops.append("select1")
+        else:
+            ops.append(gen_solve_op(r, ctx))
+    if r.chance(1, 3):
+        ops.append(gen_solve_op(r, ctx, full=True))          # a whole run of QpSolver::solve to its stopping rule
     if ctx is not None:
         ctx.hist("box_family", fam); ctx.hist("box_classes", c); ctx.hist("box_examples", n)
+        ctx.hist("box_C", f"{cnum}/2^{cshift}"); ctx.hist("box_kernel_scale", f"2^-{kshift}")
+        ctx.hist("box_kernel_kind", "zero" if all(v == 0 for row in K for v in row) else "diagonal" if kk < 3 else "gram")
+        ctx.hist("box_linear_part", "ones" if lk < 6 else "reinforced-like" if lk < 8 else "random")
+        ctx.hist("box_shrinking", shr)
     return ops
+
+
+def gen_solve_op(r, ctx=None, full=False):
+    """`solve epsnum epsshift maxiter`: QpSolver::solve from the current state (whatever shrinking state it is in)"""
+    num, sh = r.choice([(1, 10), (1, 10), (1, 3), (1, 0), (1, 20), (3, 6)])
+    mi = 3000 if full else r.choice([0, 1, 2, 3, 7, 40, 1001, 3000])
+    if ctx is not None:
+        ctx.hist("solve_eps", f"{num}/2^{sh}"); ctx.hist("solve_maxiter", mi)
+    return f"solve {num} {sh} {mi}"
+
+
+def gen_sx_case(r, maxlen, ctx=None):
+    """the same problem generator, for QpMcSimplexDecomp (CS / ATM / ADM / MMR use the same four table families):
+    constructor `sbox`, ops prefixed with `x`; `deactex` does not exist there (deactivateVariable deactivates the
+    example with its last variable), `xkkt` = checkKKT()"""
+    ops = gen_box_case(r, maxlen, None)
+    out = ["s" + ops[0]]
+    for o in ops[1:]:
+        t = o.split()
+        if t[0] == "deactex": t = ["deactvar", t[1]]
+        if t[0] == "select1": t = [r.choice(["select", "kkt"])]
+        out.append("x" + " ".join(t))
+    if ctx is not None:
+        h = out[0].split()
+        ctx.hist("sx_family", h[1]); ctx.hist("sx_classes", h[2]); ctx.hist("sx_examples", h[3])
+        ctx.hist("sx_C", f"{h[4]}/2^{h[5]}"); ctx.hist("sx_shrinking", h[6]); ctx.hist("sx_kernel_scale", f"2^-{h[7]}")
+    return out
 
 
 def split_line(l):
@@ -211,9 +269,18 @@ def run_box(ctx, hcmd, dcmd, ops, timeout=300):
 
 def classify_box(ops, res):
     kinds = sorted({o.split()[0] for o in ops[1:]})
-    fam = ops[0].split()[1] if ops and ops[0].startswith("box") else "?"
+    fam = ops[0].split()[1] if ops and ops[0].split()[0] in ("box", "sbox") else "?"
+    if ops and ops[0].startswith("mldata"):
+        fam = next((o.split()[1] for o in ops if o.startswith("mlnew")), "?")
     if res.oracle:
         tags = sorted({m for l in res.oracle for m in re.findall(r"!oracle (\S+)", l)})
+        if tags == ["shrink-deactivated-violator"] and res.diff_at is None and not res.crash:
+            return (f"F-C16-4:simplex-shrink-deactivates-violator:{fam}",
+                    "QpMcSimplexDecomp::shrink deactivated a variable that violates the KKT conditions (varsum snapped to 0, alpha tiny but positive, "
+                    f"negative gradient): the solve loop cannot make progress from there; ops {ops}")
+        if tags == ["ml-gain-mismatch"] and fam in ("CS", "ADM", "ATM") and res.diff_at is None and not res.crash:
+            return (f"F-C16-L1:mclinear-two-variable-gain:{fam}",
+                    f"QpMcLinear{fam}::solveSub returns a gain that is not the change of the dual objective (two-variable step); ops {ops}")
         if tags == ["label-after-shrink"]:
             return "F-C16-1:label-after-shrink", ("QpMcBoxDecomp::label(i) returns the label of the example currently at position i, "
                                                    f"not of dataset example i, after deactivateExample; ops {ops}")
@@ -238,6 +305,12 @@ def correspond_box(ctx, name, cases, hcmd, dcmd, max_report=4):
     ctx.count("box_lines_exact_mode", big.exact_lines)
     ctx.count("box_lines_bit_mode", big.lines - big.exact_lines)
     ctx.count("lines_where_float_model_equals_rat_model", big.rat_ok)
+    for l in big.impl:
+        m = re.match(r"it=(\d+) stop=(\d+) ", l)
+        if m:      # a whole run of QpSolver::solve: how it ended and how long it ran
+            it = int(m.group(1))
+            ctx.hist(name + "_solve_stop", {"1": "accuracy", "4": "maxIterations"}.get(m.group(2), m.group(2)))
+            ctx.hist(name + "_solve_iterations", "0" if it == 0 else "1-9" if it < 10 else "10-99" if it < 100 else "100-999" if it < 1000 else ">=1000")
     if big.ok:
         ctx.log(f"{name}: {len(cases)} cases / {len(all_ops)} ops agree; exact-mode lines {big.exact_lines}, bit-mode lines {big.lines - big.exact_lines}, Float=Rat on {big.rat_ok} lines ({time.time()-t:.1f}s)")
         return 0
@@ -245,9 +318,11 @@ def correspond_box(ctx, name, cases, hcmd, dcmd, max_report=4):
         results = list(ex.map(lambda c: run_box(ctx, hcmd, dcmd, c, timeout=120), cases))
     failing = [(c, r) for c, r in zip(cases, results) if not r.ok] or [(all_ops, big)]
     ctx.log(f"{name}: {len(failing)} of {len(cases)} cases FAIL")
-    seen = set()
+    seen, seen0 = set(), set()
     for c, r in failing:
         key0, _ = classify_box(c, r)
+        if key0 in seen0: continue           # one minimised representative per kind of failure
+        seen0.add(key0)
         def fails(ops):
             rr = run_box(ctx, hcmd, dcmd, ops, timeout=60)
             return (not rr.ok) and classify_box(ops, rr)[0] == key0
@@ -451,6 +526,11 @@ def check_train_group(ctx, exe, ds, F, bias, C, eps, kern, cfgs, disp=None):
                 dd = sorted(a - b for a, b in zip(allA[c::outputs], allB[c::outputs]))
                 shift[c] = dd[len(dd) // 2]
                 if abs(shift[c]) > 1e-6: ctx.count("binary_offset_shift_removed")
+        # equality-constrained binary machines: the offset shift is only ESTIMATED: median_j(delta f_j) = delta b + median_j(<delta w, x_j>),
+        # so it is off by at most |delta w| * max_j sqrt(k(x_j,x_j)); that term is added to the tolerance of every point
+        # (without it a point at the origin of a linear kernel, k(x,x) = 0, is compared with a tolerance of eps only)
+        kref = max([kxx(ds, ds["probes"], j, kern) for j in range(ds["m"])] + [kxx(ds, ds["xs"], j, kern) for j in range(n)] + [0.0])
+        shift_slack = 2 * math.sqrt(2 * gap) * math.sqrt(max(kref, 0.0))
         for name, pts, cnt in (("dec", ds["probes"], ds["m"]), ("tdec", ds["xs"], n)):
             va, vb = b0[name], [x + shift[t % outputs] for t, x in enumerate(rr[name])]
             if F in CENTRED and k > 2 and outputs > 1:
@@ -458,7 +538,7 @@ def check_train_group(ctx, exe, ds, F, bias, C, eps, kern, cfgs, disp=None):
             for j in range(cnt):
                 tol = train_tolerance(ds, pts, j, kern, gap, epsf, bias)
                 if bias and (outputs == 1 or F == "OVA"):
-                    tol *= 2      # equality-constrained binary machines: the offset shift is only estimated (median), see above
+                    tol = 2 * tol + shift_slack
                 for c in range(outputs):
                     dev = abs(va[j * outputs + c] - vb[j * outputs + c])
                     worst = max(worst, dev / tol)
@@ -490,6 +570,10 @@ def check_linear_vs_kernel(ctx, exe, ds, F, C, eps):
     if rc != 0 or len(res) != 3:
         m = re.search(r"ERROR: AddressSanitizer: (\S+)|runtime error: ([^\n]*)", err)
         return f"crash:ltrain:{(m.group(1) or m.group(2)) if m else 'abort'}:{F}", f"linear trainer harness aborted: {err[-400:]}", ops
+    if res[0]["oracle"] == ["solver-did-not-reach-accuracy"] and F in SIMPLEX and k > 2 and int(res[0].get("iters", "0")) >= ITER_CAP:
+        return (f"F-C16-4:simplex-solver-stalls:{F}",
+                f"QpMcSimplexDecomp stalls (linear kernel, no offset, shrinking on): {res[0].get('iters')} iterations, "
+                f"recomputed KKT violation {res[0].get('kkt', '?')} (eps {eps}), dual value {res[0].get('value')}", ops)
     for rr in res:
         if rr["oracle"]:
             return f"oracle:{'+'.join(sorted(set(rr['oracle'])))}:{F}", f"oracle failed: {rr['raw'][-300:]}", ops
@@ -518,6 +602,26 @@ def check_linear_vs_kernel(ctx, exe, ds, F, C, eps):
             return (f"oracle:linear-vs-kernel:{F}",
                     f"kernel solver (linear kernel) and dedicated linear solver disagree beyond the solver accuracy: dual values {kv} / {rr['value']}, "
                     f"deviation/tolerance={worst:.3g}", ops)
+    return None, "", ops
+
+
+def check_model_reuse(ctx, exe, ds, F, bias, C, eps, kern, r):
+    """re-use of a model object (multi-step history): k-class training followed by two-class training of the SAME
+    KernelClassifier over the same inputs must give what a fresh model gives, and vice versa"""
+    cfgs = [(0, -1), (1, 2 * ds["n"])]
+    ops = list(ds["ops"]) + [f"retrain {F} {bias} {shr} {cache} {C} {eps} {kern} {r.below(ds['k'])}" for shr, cache in cfgs]
+    rc, lines, err = run_harness_lines(exe, ops, timeout=120)
+    ctx.count("model_reuse_runs", len(cfgs)); ctx.count("evaluations", len(cfgs))
+    res = [parse_train(l) for l in lines[2:]]
+    if rc != 0 or len(res) != len(cfgs):
+        if rc == -99 and bias:
+            return None, "", ops       # offset training that does not terminate is F-C16-2/4 (reported by the sweeps)
+        m = re.search(r"ERROR: AddressSanitizer: (\S+)|runtime error: ([^\n]*)", err)
+        return f"crash:retrain:{(m.group(1) or m.group(2)) if m else 'abort'}:{F}", f"model re-use harness aborted: {err[-400:]}", ops
+    for rr in res:
+        if rr["oracle"]:
+            return (f"oracle:{'+'.join(sorted(set(rr['oracle'])))}:{F}",
+                    f"the result of training depends on the history of the model object: {rr['raw'][-300:]}", ops)
     return None, "", ops
 
 
@@ -576,13 +680,19 @@ def trainer_sweeps(ctx, exe, nds, disp=None, corpus=()):
             if kern == "lin":
                 key, what, ops = check_linear_vs_kernel(ctx, exe, ds, F, C, eps)
                 if key: report_train(ctx, exe, seen, key, what, ops)
+        if k > 2:
+            F = r.choice(FORMS)
+            key, what, ops = check_model_reuse(ctx, exe, ds, F, 0 if eps != "1e-3" else r.below(2), C, eps, kern, r)
+            ctx.hist("model_reuse_formulation", F)
+            if key: report_train(ctx, exe, seen, key, what, ops)
 
 
 def run(ctx):
     ctx.trusted += ["translator translate/mcsvm_tables.py (C++ subset parser; every generated table is also compared with the real arrays, "
                     "the generated decision logic with the path the real trainer takes)",
-                    "correspondence harnesses harness/c16.cpp, harness/c16s.cpp + generators/tolerances in checks/c16.py",
-                    "hand-written models Model/McSmo.lean (QpMcBoxDecomp.h, AnalyticProblems.h) and Model/McLinear.lean (QpBoxLinear.h): modelled, not translated",
+                    "correspondence harnesses harness/c16.cpp, c16s.cpp, c16x.cpp, c16l.cpp + generators/tolerances in checks/c16.py, checks/c16_mclin.py",
+                    "hand-written models Model/McSmo.lean, McSolve.lean (QpMcBoxDecomp.h, QpSolver.h, AnalyticProblems.h), McSimplex.lean (QpMcSimplexDecomp.h), McBias.lean, McLinear.lean (QpBoxLinear.h), "
+                    "McLinearMc.lean (QpMcLinear.h): modelled, not translated; the drivers re-tabulate state vectors between operations / loop passes",
                     "ASan/UBSan runtime for the real code's memory safety (not a theorem)"]
     ctx.assumptions += ["exact arithmetic (Rat) in all theorems; the Float instance of the same definitions is what is compared bit for bit with the C++",
                         "kernel matrix symmetric (QSym) for mc_grad_inv; operations respect the C++ preconditions (Op.valid)",
@@ -614,6 +724,33 @@ def run(ctx):
     ctx.cov["distinct_nontrivial"] += len({"\n".join(c) for c in bcases if len(c) > 3})
     ctx.sample({"box_ops": bcases[len(bcases) // 2][:8]})
     correspond_box(ctx, "K-C16-box", bcases, [exe], [drv])
+    # the same for QpMcSimplexDecomp (CS / ATM / ADM / MMR) incl. whole runs of QpSolver::solve
+    rx = ctx.rng.fork("c16-sx")
+    # (corpus cases of the listed finding F-C16-4 run as their own batch, so that the big batch normally stays on the fast path)
+    xcorp = [c for c in corpus if c[0].startswith("sbox")]
+    if xcorp:
+        ctx.cov["evaluations"] += len(xcorp)
+        correspond_box(ctx, "K-C16-simplex-corpus", xcorp, [exe], [drv])
+    xcases = [gen_sx_case(rx, maxlen, ctx) for _ in range(500 if ctx.quick else 2500)]
+    for c in xcases:
+        for o in c: ctx.hist("sx_op_mix", o.split()[0])
+    ctx.cov["evaluations"] += len(xcases)
+    ctx.cov["distinct_nontrivial"] += len({"\n".join(c) for c in xcases if len(c) > 3})
+    ctx.sample({"simplex_ops": xcases[len(xcases) // 2][:6]})
+    correspond_box(ctx, "K-C16-simplex", xcases, [exe], [drv])
+    # dedicated multi-class linear solvers QpMcLinear{WW,LLW,ATS,MMR,Reinforced,CS,ATM,ADM}: the per-example step
+    # (calcGradient / solveSub / updateWeightVectors of the real classes) along arbitrary schedules
+    rl = ctx.rng.fork("c16-mclin")
+    BOXF, SXF = ["WW", "LLW", "ATS", "MMR", "RS"], ["CS", "ATM", "ADM"]
+    mcases = [c16_mclin.gen_mclin_case(rl, 6 if ctx.quick else 12, ctx, BOXF) for _ in range(450 if ctx.quick else 2500)]
+    # (separate batch: the gain oracle is known to fire there, F-C16-L1; every other failure still gets its own key)
+    scases = [c for c in corpus if c[0].startswith("mldata")]
+    scases += [c16_mclin.gen_mclin_case(rl, 6 if ctx.quick else 12, ctx, SXF) for _ in range(150 if ctx.quick else 1200)]
+    ctx.cov["evaluations"] += len(mcases) + len(scases)
+    ctx.cov["distinct_nontrivial"] += len({"\n".join(c) for c in mcases + scases})
+    ctx.sample({"mclinear_ops": mcases[len(mcases) // 2][:4]})
+    correspond_box(ctx, "K-C16-mclinear", mcases, [exe], [drv], max_report=8)
+    correspond_box(ctx, "K-C16-mclinear-sum", scases, [exe], [drv], max_report=8)
     # dedicated linear solver, one-epoch sweeps along the observed schedule
     lcases = [gen_linear_case(r, 6 if ctx.quick else 25, ctx) for _ in range(300 if ctx.quick else 1500)]
     lcases = add_schedules(exe, lcases)
@@ -624,8 +761,10 @@ def run(ctx):
     # trainer level
     tcorp = [c for c in corpus if c[0].startswith("data")]
     trainer_sweeps(ctx, exe, 50 if ctx.quick else 150, dispatch_table(drv), tcorp)
-    ctx.sample({"theorems": ["M_is_gram_of_nu", "mc_tables_inv", "mc_box_inv", "mc_grad_inv", "two_class_dispatch",
-                             "ova_is_binary_per_class", "linear_w_inv", "linear_box_inv", "linear_step_gain_nonneg_partial"]})
+    ctx.sample({"theorems": ["M_is_gram_of_nu", "mc_tables_inv", "mc_box_inv", "mc_grad_inv", "solve_run_invariants", "solve_never_stuck_box",
+                             "solve_generated_near_optimal", "solve_generated_configuration_invariant", "simplex_run_invariants", "simplex_stop_is_kkt",
+                             "bias_loop_consistent", "bias_loop_consistent_simplex", "simplex_run_renumbers", "decision_map_quadratic", "stopped_configurations_close_decision", "mc_linear_invariants",
+                             "two_class_dispatch", "ova_is_binary_per_class", "linear_w_inv", "linear_box_inv", "linear_step_gain_nonneg_partial"]})
 
 
 def replay_train(ctx, exe, ops, report=False):
